@@ -43,15 +43,18 @@ Record variant := mkVariant {
   v_detach_prewrite : bool;  (* the goingLive branch runs the pre-write before writing client.out *)
   v_flusher_swap : bool;     (* backgroundSyncAOF starts with `if !s.aofdirty.Swap(false) { return }`,
                                 before it takes the lock (not the case in tile38; a recognised other order) *)
-  v_flag_in_writeaof : bool  (* s.aofdirty.Store(true) is inside writeAOF, before the append; false: it is
+  v_flag_in_writeaof : bool; (* s.aofdirty.Store(true) is inside writeAOF, before the append; false: it is
                                 in handleInputCommand after writeAOF returned, so the writes a Lua script
                                 makes through luaTile38AtomicRW / luaTile38NonAtomic never raise it *)
+  v_detach_store_locked : bool (* the goingLive copy of the pre-write clears the flag before its unlock;
+                                false: that copy unlocks right after flushAOF (explicit s.mu.Unlock())
+                                and clears the flag afterwards *)
 }.
 
 (* tile38 at the pinned commit *)
-Definition v_pinned : variant := mkVariant false false false true.
+Definition v_pinned : variant := mkVariant false false false true true.
 (* tile38 with proposed_fixes/C08-prewrite-order.diff applied (what /repo's working tree holds) *)
-Definition v_fixed : variant := mkVariant true true false true.
+Definition v_fixed : variant := mkVariant true true false true true.
 
 Inductive pc := CMD | L2 | L3 | L4 | P1 | P2 | P3 | P4 | P4U | P5 | P6 | DONE | F1 | FL | F2 | F3.
 
@@ -134,14 +137,23 @@ Definition step (v : variant) (st : state) (t : tid) : state :=
       | None => mkState (upd T t (set_pc th P3)) (Some t) (dirty st) (buf st) (file st) (acked st)
       | Some _ => st
       end
-  | P3 => mkState (upd T t (set_pc th P4)) (lock st) (dirty st) [] (file st ++ buf st) (acked st)
+  | P3 =>
+      (* in the goingLive copy of the variant `detach_store_locked = false` the unlock follows the
+         flush directly (flush and unlock form one step: nothing can come between them) *)
+      mkState (upd T t (set_pc th P4))
+              (if negb (v_detach_store_locked v) && t_detach th then None else lock st)
+              (dirty st) [] (file st ++ buf st) (acked st)
   | P4 =>
+      (* the goingLive copy has the store here in every variant; the reply block has it here iff store_locked *)
       mkState (upd T t (set_pc th P4U)) (lock st)
-              (if v_store_locked v then false else dirty st) (buf st) (file st) (acked st)
-  | P4U => mkState (upd T t (set_pc th P5)) None (dirty st) (buf st) (file st) (acked st)
+              (if v_store_locked v || t_detach th then false else dirty st) (buf st) (file st) (acked st)
+  | P4U =>
+      mkState (upd T t (set_pc th P5))
+              (if negb (v_detach_store_locked v) && t_detach th then lock st else None)
+              (dirty st) (buf st) (file st) (acked st)
   | P5 =>
       mkState (upd T t (set_pc th P6)) (lock st)
-              (if v_store_locked v then dirty st else false) (buf st) (file st) (acked st)
+              (if negb (v_store_locked v) && negb (t_detach th) then false else dirty st) (buf st) (file st) (acked st)
   | P6 =>
       mkState (upd T t (next_batch v (t_detach th) (t_rest th))) (lock st) (dirty st) (buf st) (file st)
               (acked st ++ t_pend th)
@@ -209,3 +221,9 @@ Definition fswap_sched : list tid := [0;0;0;0; 1; 0;0]%nat.
 (* the flag raised by the dispatcher instead of writeAOF: one connection, one write made by a script *)
 Definition fdisp_progs : list prog := [PConn [mkBatch [1%N] false true]].
 Definition fdisp_sched : list tid := [0;0;0;0; 0;0]%nat.
+
+(* the goingLive copy of the pre-write unlocks before it clears the flag: A = [SET][SUBSCRIBE] in one
+   packet, C writes in the window between A's unlock and A's clear *)
+Definition fdet_progs : list prog :=
+  [PConn [mkBatch [1%N] true false]; PConn [mkBatch [2%N] false false]].
+Definition fdet_sched : list tid := [0;0;0;0; 0;0;0;  1;1;1;1;  0;  1;1]%nat.
